@@ -35,8 +35,8 @@ CHECKS["C01"] = dict(
         "view-mashing factor dividing N/2 and odd TOF mashing the pairs a bin reports are exactly the pairs assigned to it (sound, complete up to orientation, duplicate-free, reported count), "
         "exchanging detectors negates the TOF index, and uncompressed bin->pair->bin is the identity. Tie: construct_proj_data_info geometries (generated + predefined scanners) are "
         "enumerated on the real ProjDataInfoCylindricalNoArcCorr and every table entry / bin is compared with the model; a partition oracle runs on the implementation. "
-        "The segment table construction (ProjDataInfoCTI) is modelled and compared but its well-formedness is checked per configuration, not proved in general; one class of "
-        "configurations (outermost segment clipped to a single ring difference of odd parity) violates the ring-pair clause and is a listed known finding with a Lean negative witness.",
+        "The segment table built by ProjDataInfoCTI is well-formed for EVERY span, max_delta and number of rings the constructor accepts, except exactly the decidable class ctiDefect (outermost segment clipped to a single ring "
+        "difference of the wrong parity), where it is proved NOT well-formed: that class violates the ring-pair clause on the real code and is a listed known finding; outside it all bin/ring-pair theorems apply to the tables the constructor builds (C01_cti_WF, C01_cti_Cfg, closed form of the table).",
    note=TB + "float computation of m_offset/ax_pos_num_offset replaced by exact integers; 32-bit overflow not modelled; BlocksOnCylindrical (same formulas, copied code) is exercised for two predefined scanners at span 1 without TOF/view mashing (unsupported there); Generic geometry only through the same class hierarchy.",
    design="DESIGN.md §4 C01")
 
@@ -47,8 +47,8 @@ CHECKS["C18"] = dict(
         "every assignment of items to threads — each for every number of threads and every schedule (induction over schedules with an inductive invariant). "
         "Tie/exploration: the OpenMP build of /repo is run with UCL_STIR_VERIF schedule points that record events and inject seeded yields/sleeps; every recorded trace must be accepted by the "
         "model's trace validators (exactly one build per table, `crit 0, built, crit 1*`, no set flag seen before the build, cache hits after inserts, every work item exactly once), and "
-        "multi-threaded results are compared with single-threaded results of the same binary. What libgomp and the hardware do is not a theorem: this is the weakest claim in the set.",
-   note=TB + "OpenMP atomic/critical/locks assumed sequentially consistent; races outside the modelled protocols are visible only to the perturbed runs; list-mode gradient and scatter not exercised.",
+        "multi-threaded results (T = 2..16, and 16 threads on 2 work items, fresh objects each time) are compared with single-threaded results of the same binary for: geometry tables, the matrix cache, forward/back projection in memory and to/from Interfile files, log-likelihood value, sub-gradient, sensitivity and both Hessian products for 1..3 subsets with additive term and normalisation (in memory and from files), concurrent viewgram/sinogram/segment access to ProjDataFromStream and ProjDataInMemory, and single-scatter simulation with and without the integral cache. Removing a critical section around stream I/O or the detector list, dropping the scatter reduction, sharing a per-thread accumulator or a shared temporary were each caught at the quick tier on every seed tried; races that are benign on this hardware (a dropped omp atomic on the scatter-cache floats, a dropped critical around ProjDataInMemory copies) are invisible to it. What libgomp and the hardware do is not a theorem: this is the weakest claim in the set.",
+   note=TB + "OpenMP atomic/critical/locks assumed sequentially consistent; races outside the modelled protocols are visible only to the perturbed runs; list-mode gradients, double scatter and down-sampling inside the scatter simulation are not exercised; ProjData critical sections have no schedule hooks (contention only).",
    design="DESIGN.md §4 C18")
 
 CHECKS["C02"] = dict(
@@ -113,9 +113,9 @@ CHECKS["C14"] = dict(
    technique="Lean 4 proofs by induction over record streams (multi-pass = single pass, one count per event, frames add, cut-off), algebraic gradient identity, differential correspondence on the real LmToProjData and list-mode objective",
    text="Proof: for every record stream, frame list, template and batch size in time-frame mode with regular frames: the multi-pass run of process_data equals the single-pass histogram, any two batch sizes give "
         "the same result, each bin holds +1 per prompt / -1 (or delayed_increment) per delayed event of the frame assigned to it and nothing else, out-of-range events are dropped, frames of a partition add up to the "
-        "whole interval, num_events_to_store cuts at the characterised prefix; the list-mode gradient formula equals the projection-data gradient of the histogrammed data (an algebraic theorem about the two formulas only: the real list-mode objective class is not run). Two stream/frames classes where the "
-        "code deviates are negative-witness theorems and listed known findings. Tie: generated list-mode streams (a synthetic in-memory ListModeData whose events are real CListEventCylindricalScannerWithDiscreteDetectors) through the real LmToProjData for all batch sizes, frames and store switches, every non-zero bin of every frame compared exactly with the model; an independent event-count oracle on the implementation.",
-   note=TB + "event -> bin assignment is C01's model (data here); scanner-specific list-mode file decoders and PoissonLogLikelihoodWithLinearModelForMeanAndListModeDataWithProjMatrixByBin are not exercised.",
+        "whole interval, num_events_to_store cuts at the characterised prefix; the list-mode gradient (executable model of read_listmode_batch: frame/event-count selection, batching into cache files of any size, subset test, back projection of 1/(row.image+additive)) equals the projection-data gradient expression on the histogram for every cache size and subset split, for streams whose time marks never go back. Two stream/frames classes where the "
+        "code deviates are negative-witness theorems and listed known findings. Tie: generated list-mode streams (a synthetic in-memory ListModeData whose events are real CListEventCylindricalScannerWithDiscreteDetectors) through the real LmToProjData for all batch sizes, frames and store switches, every non-zero bin of every frame compared exactly with the model; an independent event-count oracle on the implementation; the real PoissonLogLikelihoodWithLinearModelForMeanAndListModeDataWithProjMatrixByBin is run in memory (TOF/non-TOF, additive, normalisation, subsets, frames, event caches split into batches, setter histories vs fresh objects) and its per-subset gradient, sensitivity and Hessian product are compared voxel by voxel with the real projection-data objective on the real LmToProjData histogram of the same events, the event-sum part also with the exact-Rat model. Five defects of the list-mode objective found this way were repaired in /repo (among them: without OpenMP the event sums never reached the output).",
+   note=TB + "event -> bin assignment is C01's model (data here); scanner-specific list-mode file decoders, re-use of old cache files and the OpenMP/MPI builds of the list-mode objective are not exercised; its sensitivity, Hessian product and value are compared on the implementation only (no Lean model).",
    design="DESIGN.md §4 C14")
 CHECKS["C15"] = dict(
    technique="Lean 4 proofs (SSRB commutes with binning for all ring/segment/view/TOF combinations, no double counting, total conservation with exact trimming account, overlap-interpolation conservation/uniform/centre-of-mass bounds), differential correspondence on real SSRB/zoom/inverse_SSRB",
@@ -152,7 +152,7 @@ CHECKS["C20"] = dict(
         "cross-ring pair, and the loop nest visits every stored element once; projection data -> fan -> projection data is lossless with gaps filled as requested and each entry is the value of the bin the geometry assigns "
         "to the pair; apply followed by un-apply of efficiencies, block and geometric factors is the identity for non-zero factors, applying multiplies by the product of the two detectors' factors; model data are a fixed "
         "point of the efficiency and block iterations (0 where the fan sum is 0); each coordinate update and hence every sweep of iterate_efficiencies does not increase the Kullback-Leibler distance (abstract "
-        "formulation, proved over the reals). Geometric-factor fixed point and KL descent at the level of the executable model are oracle-only; the library's own KL function double counts in-ring LORs (negative witness, listed known finding). "
+        "formulation, proved over the reals). KL descent of iterate_efficiencies (KL summed once per detector pair) and the fixed point of the geometric factors are theorems about the executable model itself (the latter for every GeoData3D that fits the FanProjData: g.N = d.N, 2*half | N, acpb | R — without which the model violates it); the library's own KL function double counts in-ring LORs (negative witness, listed known finding). "
         "Tie: the real make_fan_data/set_fan_data/apply_*/iterate_*/make_*_data functions on generated small scanners against the exact-Rat model; fixed-point and descent oracles on the implementation.",
    note=TB + "log only in the KL theorems (reals) and the oracle (double); GE/ECAT-specific normalisation files not exercised.",
    design="DESIGN.md §4 C20")
@@ -165,8 +165,8 @@ CHECKS["C03"] = dict(
         "set up (refinement by induction over histories; compute = the ray tracer, uninterpreted). The symmetry-operation member functions, the two decision trees and cache_key are regenerated from the C++ source on "
         "every run and proved equal to the model (tie T, 51 kernels). Tie (C): every bin of generated geometries x 32 switch combinations x 3 cache modes x ray counts on the real classes, exact comparison incl. "
         "cache histories and re-set_up; oracle: each row against the row of a fresh matrix without symmetries and cache (library tolerance 2e-3, boundary ties screened geometrically), non-negative, no duplicates, "
-        "inside the image. The in-image clause fails in z for end-ring bins (listed known finding with negative witness and _partial theorem); a set_up defect found this way was repaired in /repo.",
-   note=TB + "Siddon ray tracing and the TOF kernel are uninterpreted (their equivariance is oracle-only); only the cylindrical branch is modelled; 32-bit overflow not modelled; translator trusts that constructors store arguments in the members of the same name.",
+        "inside the image. Geometric reason for deriving rows (ProofsLOR, over the reals): for all 17 operation kinds the real-affine extension of the voxel map is an isometry that carries the line of response (and the whole ray bundle) of a bin onto that of op.onBin(bin), hence the LOR of every bin is the image of its basic bin's LOR under the operation findSymOp chooses; the TOF sign rule holds exactly for the kinds the constructor leaves enabled for TOF data (negative witness otherwise). The in-image clause fails in z for end-ring bins (listed known finding with negative witness and _partial theorem); a set_up defect found this way was repaired in /repo.",
+   note=TB + "Siddon ray tracing and the TOF kernel are uninterpreted (that intersection lengths are invariant under the grid isometries is oracle-only; the LOR equivariance itself is a theorem); only the cylindrical branch is modelled; 32-bit overflow not modelled; translator trusts that constructors store arguments in the members of the same name.",
    design="DESIGN.md §4 C03")
 
 CHECKS["C07"] = dict(
@@ -200,6 +200,17 @@ CHECKS["C12"] = dict(
         "random rows against an exact Rat model. Five defects found this way were repaired in /repo.",
    note=TB + "sin/asin/atan2/sqrt and rounding at ties (modelled as either neighbour) are not verified; segment/axial/TOF part of the detector-based round trip and the blocks/generic crystal maps are correspondence/oracle-only; 32-bit overflow not modelled.",
    design="DESIGN.md §4 C12")
+
+CHECKS["C17"] = dict(
+   technique="Lean 4 proofs for a text model of KeyParser (keyword standardisation, aliases, vectorised keys, line-level print/parse round trips, totality of parse/read_line, allocation = declared count); differential correspondence on the real KeyParser; registered-class round-trip oracle; sanitizer fuzzing of the Interfile readers",
+   text="Proof (text model of KeyParser): keyword matching is case- and white-space-insensitive, aliases resolve, vectorised keys store at the index given or are rejected, print -> parse is the identity at line level for int, bool, "
+        "string, int-list and string-list keys, every list the model builds is bounded by the text, parse and read_line return for every text (regression witness for the repaired continuation-at-EOF loop), and a count key allocates "
+        "exactly the declared number of elements (negative witness: a 33-byte line allocates 10^8 elements = the one listed known finding). Tie: the model is compared line by line with stir::KeyParser and the Interfile count "
+        "call-backs (about 7600 operations quick). Oracle-only on the implementation: parameter_info -> parse -> parameter_info for every constructible registered class, keyword/alias/index oracles. Runtime evidence, not a theorem: "
+        "memory safety, allocation size and size consistency of KeyParser::parse, read_interfile_image, read_interfile_PDFS and MultipleDataSetHeader under ASan/UBSan on grammar-aware mutations of valid headers (not coverage-guided). "
+        "Eleven defects found this way were repaired in /repo (null dereferences, a stack overflow by strcpy, two use-after-free, a division by zero, an endless loop, string-list trimming, a non-round-tripping 'None' normalisation).",
+   note=TB + "floats, arrays, nested parsing objects, ${ENV} and NUL bytes are not modelled; only the listed sources are sanitizer-instrumented; signed-overflow reports on absurd header numbers are counted, not fatal; 40 registered classes need external data and are not constructed.",
+   design="DESIGN.md §4 C17")
 
 NOT_YET = {}
 
